@@ -28,7 +28,8 @@ Qed.
 
 (* ---------------------------------------------------------------- the local invariant of one object *)
 Definition imp (a b : bool) : bool := negb a || b.
-Definition has_pend (ob : obj) : bool := match pend ob with Some _ => true | None => false end.
+Definition has_pend (ob : obj) : bool :=
+  match pend ob with Some _ => true | None => match pendw ob with Some _ => true | None => false end end.
 Definition has_link (ob : obj) : bool := match link ob with Some _ => true | None => false end.
 Definition okb (ob : obj) : bool :=
   imp (in_map ob) (alive ob && haskey ob && sess ob && negb (delflag ob) && negb (in_new ob))
@@ -61,9 +62,9 @@ Proof.
 Qed.
 
 (* enumeration of the flags *)
-Definition mk (k : N) (lk : option nat) (pe : option Z) (b : list bool) : obj :=
+Definition mk (k : N) (lk : option nat) (pe pw : option Z) (b : list bool) : obj :=
   match b with
-  | [a; hk; se; inw; idl; im; imd; md; sg; ex; df] => mkObj a k hk se inw idl im imd md sg ex pe df lk
+  | [a; hk; se; inw; idl; im; imd; md; sg; ex; iv; df] => mkObj a k hk se inw idl im imd md sg ex pe pw iv df lk
   | _ => dead0
   end.
 Fixpoint allb (n : nat) (f : list bool -> bool) : bool :=
@@ -78,25 +79,37 @@ Proof.
     destruct x; [apply (IHn _ H1)|apply (IHn _ H2)]; lia.
 Qed.
 Lemma check_sound : forall Q : obj -> bool,
-  (forall k lk pe, allb 11 (fun b => Q (mk k lk pe b)) = true) -> forall ob, Q ob = true.
+  (forall k lk pe pw, allb 12 (fun b => Q (mk k lk pe pw b)) = true) -> forall ob, Q ob = true.
 Proof.
-  intros Q H [a k hk se inw idl im imd md sg ex pe df lk].
-  exact (allb_spec 11 _ (H k lk pe) [a; hk; se; inw; idl; im; imd; md; sg; ex; df] eq_refl).
+  intros Q H [a k hk se inw idl im imd md sg ex pe pw iv df lk].
+  exact (allb_spec 12 _ (H k lk pe pw) [a; hk; se; inw; idl; im; imd; md; sg; ex; iv; df] eq_refl).
 Qed.
-Ltac by_enum := apply check_sound; intros ? [?|] [?|]; vm_compute; reflexivity.
+Ltac by_enum := apply check_sound; intros ? [?|] [?|] [?|]; vm_compute; reflexivity.
 Ltac pk_eq := repeat match goal with |- context [if ?c then _ else _] => destruct c end; reflexivity.
 
 Lemma okb_dead0 : okb dead0 = true. Proof. reflexivity. Qed.
 Lemma tr_refl : forall ob, okb ob = true -> tr ob ob.
 Proof. intros ob H. repeat split; auto. Qed.
 
-Lemma trb_modified_event : forall v ob, imp (okb ob) (trb ob (modified_event v ob)) = true.
-Proof. intro v. by_enum. Qed.
-Lemma tr_modified_event : forall v ob, okb ob = true -> tr ob (modified_event v ob).
+Lemma trb_modified_event : forall w v ob, imp (okb ob) (trb ob (modified_event w v ob)) = true.
+Proof. intros [] v; by_enum. Qed.
+Lemma tr_modified_event : forall w v ob, okb ob = true -> tr ob (modified_event w v ob).
 Proof.
-  intros v ob H. apply trb_tr; [exact (imp_true _ _ (trb_modified_event v ob) H)|].
-  unfold modified_event. destruct ob; cbn. pk_eq.
+  intros w v ob H. apply trb_tr; [exact (imp_true _ _ (trb_modified_event w v ob) H)|].
+  unfold modified_event. destruct w, ob; cbn; pk_eq.
 Qed.
+(* partial expire: state.modified => _strong_obj is kept (the object stays pinned) *)
+Lemma trb_expire_attr : forall w ob, imp (okb ob) (trb ob (expire_attr w ob)) = true.
+Proof. intros []; by_enum. Qed.
+Lemma tr_expire_attr : forall w ob, okb ob = true -> tr ob (expire_attr w ob).
+Proof.
+  intros w ob H. apply trb_tr; [exact (imp_true _ _ (trb_expire_attr w ob) H)|].
+  unfold expire_attr. destruct w, ob; reflexivity.
+Qed.
+Lemma trb_unexpire : forall ob, imp (okb ob) (trb ob (set_in_val true (set_expired false ob))) = true.
+Proof. by_enum. Qed.
+Lemma tr_unexpire : forall ob, okb ob = true -> tr ob (set_in_val true (set_expired false ob)).
+Proof. intros ob H. apply trb_tr; [exact (imp_true _ _ (trb_unexpire ob) H)|destruct ob; reflexivity]. Qed.
 Lemma trb_commit_all : forall ob, imp (okb ob) (trb ob (commit_all ob)) = true.
 Proof. by_enum. Qed.
 Lemma tr_commit_all : forall ob, okb ob = true -> tr ob (commit_all ob).
@@ -169,7 +182,7 @@ Proof. intros ob. unfold flush_obj, commit_all. destruct ob; cbn. pk_eq. Qed.
 
 Lemma ok_new_obj : forall s, let ob := new_obj s in
   okb ob = true /\ alive ob = true /\ pk ob = next_pk s /\ in_map ob = false /\ in_new ob = true /\
-  pend ob = Some (next_val s) /\ in_del ob = false.
+  pend ob = Some (next_val s) /\ in_del ob = false /\ pendw ob = None.
 Proof. intros s. cbn. repeat split. Qed.
 Lemma ok_loaded_obj : forall k, let ob := loaded_obj k in
   okb ob = true /\ alive ob = true /\ pk ob = k /\ in_map ob = true /\ in_new ob = false.
@@ -209,4 +222,11 @@ Proof.
     | X : _ && _ = true |- _ => apply andb_prop in X; destruct X
     | X : negb _ = true |- _ => apply negb_true_iff in X
     end; auto.
+Qed.
+Lemma okb_modified_strong : forall ob, okb ob = true -> alive ob = true -> sess ob = true -> modified ob = true ->
+  strong ob = true.
+Proof.
+  intros ob H A S M.
+  assert (Q : forall ob, imp (okb ob && alive ob && sess ob && modified ob) (strong ob) = true) by by_enum.
+  apply (imp_true _ _ (Q ob)). rewrite H, A, S, M. reflexivity.
 Qed.
